@@ -446,16 +446,23 @@ func RetVal(ret *ssa.Return, i int) ssa.Value {
 		return v
 	}
 	// last store to the alloc in the same block before the load
+	// only the spill pattern: the store is followed by rundefers (a plain local that is copied, modified and then
+	// returned is a value of its own)
 	var last ssa.Value
+	spilled := false
 	for _, in := range ret.Block().Instrs {
 		if in == ssa.Instruction(u) {
 			break
 		}
 		if st, ok := in.(*ssa.Store); ok && st.Addr == al {
 			last = st.Val
+			spilled = false
+		}
+		if _, ok := in.(*ssa.RunDefers); ok && last != nil {
+			spilled = true
 		}
 	}
-	if last != nil {
+	if last != nil && spilled {
 		return last
 	}
 	return v
